@@ -267,6 +267,18 @@ func (db *DB) setRemove(batch driver.Batching, addr, rootAddr boson.Address) (gc
 		}
 		return 0, nil
 	}
+	if addr.Equal(rootAddr) {
+		// the file itself is removed: its gc entry goes with whatever is
+		// left of its counter. Chunks that other files still need stay
+		// stored, but they are no longer accounted to this file; an entry
+		// left behind would make a later collection run evict the file a
+		// second time.
+		err = db.gcIndex.DeleteInBatch(batch, gcItem)
+		if err != nil {
+			return 0, err
+		}
+		return -int64(gcItem.GCounter), nil
+	}
 	if gcItem.GCounter > 1 {
 		gcItem.GCounter--
 		err = db.gcIndex.PutInBatch(batch, gcItem)
